@@ -1134,8 +1134,20 @@ func runRegionExact(rc *RuleCtx) {
 						return ok && ob.Op == token.ADD && ob.X == bound.X && ob.Y == bound.Y
 					}
 					if (isReadLoad(o.X) && sameBound(o.Y)) || (isReadLoad(o.Y) && sameBound(o.X)) {
-						if !lp.blocks[b] || b != lp.head {
+						if !lp.blocks[b] {
 							good, why = true, "the cursor is compared with the region end after the walk"
+						} else if b != lp.head && o.Referrers() != nil {
+							// inside the loop: only a test that leaves through a return (an element that ran past
+							// the end is an error), not one that merely decides about a separator
+							for _, r := range *o.Referrers() {
+								if iff, ok := r.(*ssa.If); ok {
+									for _, s := range iff.Block().Succs {
+										if _, isRet := lastInstr(s).(*ssa.Return); isRet {
+											good, why = true, "inside the walk the cursor is compared with the region end and the overrun returns"
+										}
+									}
+								}
+							}
 						}
 					}
 				}
